@@ -437,6 +437,11 @@ Definition obs_layer (sp : space) (d : layer) (color_mode : bool) (vmin vmax : o
                   | Some v => value_shown (sp_family sp) color_mode lo hi a4 v
                   | None => -9
                   end) (layer_view sp d)
+    (* colormap mode on an image: the colour scale handed to imshow (vmin=, vmax=) is the CURRENT one *)
+    ++ (match sp_family sp, color_mode with
+        | Hex, _ | _, true => []
+        | _, false => if hi =? lo then [] else [lo; hi]
+        end)
     (* the colour bar never touches the image; its scale is Normalize(vmin, vmax) *)
     ++ (if colorbar then (if hi =? lo then [1]                            (* Matplotlib widens a singular scale itself *)
                           else [1; 2 * lo; 2 * hi])                       (* half units *)
